@@ -21,10 +21,17 @@ R_j = int(n * c_j / 100.0) are computed here with Python's float arithmetic and 
 (the theorems take them as inputs); their contract (non-decreasing, <= n, < n except the last) is checked per case.
 """
 import ast
+import contextlib
+import copy
 import functools
 import json
 import math
+import os
+import pickle
+import random as _random
+import shutil
 import struct
+import tempfile
 import time
 import warnings
 from fractions import Fraction
@@ -154,6 +161,13 @@ def eligible(pal, v):
     return [t for t in pal if can(t, v)]
 
 
+REJECTED = ("tuple", "gen", "iter", "map")   # not `list` / `numpy.ndarray`: the documented TypeError
+
+
+class SubArr(np.ndarray):
+    """a trivial ndarray subclass (isinstance(x, np.ndarray) holds)"""
+
+
 def choose_rep(rng, vals, pal, allow_tuple=True):
     """a representation (JSON-able spec) of the list of logical values, drawn from the palette"""
     opts = []
@@ -164,16 +178,18 @@ def choose_rep(rng, vals, pal, allow_tuple=True):
                 opts.append((dict(c="nd", t=t[3:].rstrip("_")), 2.5))
     if all(eligible(pal, v) for v in vals):
         opts.append((dict(c="list", t=None), 5.0))
+        opts.append((dict(c="ndobj", t=None), 1.5))      # ndarray of dtype object holding the same scalars
     if not opts:
         return None
     spec = dict(rng.choices([o for o, _ in opts], weights=[w for _, w in opts])[0])
-    if spec["c"] == "list" and spec["t"] is None:
+    if spec["c"] in ("list", "ndobj") and spec["t"] is None:
         spec["t"] = [rng.choice(eligible(pal, v)) for v in vals]
     if spec["c"] == "nd":
         spec["ro"] = rng.random() < 0.25
         spec["nc"] = rng.random() < 0.25
-    elif allow_tuple and rng.random() < 0.01:
-        spec["c"] = "tuple"
+        spec["sub"] = rng.random() < 0.12
+    elif spec["c"] == "list" and allow_tuple and rng.random() < 0.03:
+        spec["c"] = rng.choice(REJECTED)
     return spec
 
 
@@ -185,11 +201,17 @@ def plain_rep(vals):
 def build_rep(spec, vals):
     """the Python object for the logical values under the spec (a fresh object on every call: the class may sort its
     argument in place)"""
-    if spec["c"] in ("list", "tuple"):
+    if spec["c"] in ("list", "ndobj") + REJECTED:
         xs = [mk(t, v) for t, v in zip(spec["t"], vals)]
         if len(xs) != len(vals) or len(spec["t"]) != len(vals):
             raise ValueError("spec / value length mismatch")
-        return xs if spec["c"] == "list" else tuple(xs)
+        if spec["c"] == "ndobj":
+            arr = np.empty(len(xs), dtype=object)
+            for i, x in enumerate(xs):
+                arr[i] = x
+            return arr
+        return {"list": lambda: xs, "tuple": lambda: tuple(xs), "gen": lambda: (x for x in xs),
+                "iter": lambda: iter(xs), "map": lambda: map(lambda x: x, xs)}[spec["c"]]()
     dt = spec["t"]
     t = "np.bool_" if dt == "bool" else "np." + dt
     if not all(can(t, v) for v in vals):
@@ -204,6 +226,8 @@ def build_rep(spec, vals):
         arr = base[1::2]
     else:
         arr = np.array(py, dtype=dt)
+    if spec.get("sub"):
+        arr = arr.view(SubArr)
     if spec.get("ro"):
         arr.setflags(write=False)
     return arr
@@ -217,7 +241,8 @@ def rep_types(spec):
 
 def rep_tag(spec):
     if spec["c"] == "nd":
-        return "nd:" + spec["t"] + ("+ro" if spec.get("ro") else "") + ("+nc" if spec.get("nc") else "")
+        return "nd:" + spec["t"] + ("+ro" if spec.get("ro") else "") + ("+nc" if spec.get("nc") else "") + \
+            ("+sub" if spec.get("sub") else "")
     ts = set(spec["t"])
     return spec["c"] + ":" + (next(iter(ts)) if len(ts) == 1 else "mixed" if ts else "empty")
 
@@ -262,11 +287,99 @@ def ilist(xs) -> str:
     return ";".join(str(int(x)) for x in xs)
 
 
-# ------------------------------------------------------------------ real code
-def real_obj(sample, edges):
-    """sample / edges are the represented objects; they are handed over as they are"""
+# ------------------------------------------------------------------ devices: copies, subclass, process environment
+COPY_MODES = ["copy", "deepcopy", "pickle"]
+NO_DEV = dict(ocopy=None, scopy=None, ecopy=None, sub=False, env=False)
+
+
+def cp(obj, mode):
+    """obj or one of its copies: copy.copy / copy.deepcopy / pickle round trip"""
+    if not mode:
+        return obj
+    if mode == "copy":
+        return copy.copy(obj)
+    if mode == "deepcopy":
+        return copy.deepcopy(obj)
+    return pickle.loads(pickle.dumps(obj))
+
+
+def gen_dev(rng):
+    """which objects of the case are replaced by a copy before use, whether the class is a trivial subclass, whether
+    the calls run in an unusual process environment"""
+    return dict(ocopy=rng.choice(COPY_MODES) if rng.random() < 0.35 else None,
+                scopy=rng.choice(COPY_MODES) if rng.random() < 0.12 else None,
+                ecopy=rng.choice(COPY_MODES) if rng.random() < 0.12 else None,
+                sub=rng.random() < 0.15, env=rng.random() < 0.10)
+
+
+def dev_tag(dev):
+    return "+".join([f"{k}={v}" for k, v in dev.items() if v]) or "plain"
+
+
+def cc_class(sub=False):
+    """the class under test, or a trivial subclass of it that is importable from this module (so that it pickles)"""
     from sparkx.CentralityClasses import CentralityClasses
-    return CentralityClasses(events_multiplicity=sample, centrality_bins=edges)
+    if not sub:
+        return CentralityClasses
+    cls = globals().get("CentralitySub")
+    if cls is None or cls.__mro__[1] is not CentralityClasses:
+        cls = type("CentralitySub", (CentralityClasses,), {"__module__": __name__, "__qualname__": "CentralitySub",
+                                                           "__doc__": "a subclass that adds nothing"})
+        globals()["CentralitySub"] = cls
+    return cls
+
+
+class Env:
+    """an unusual but legitimate process environment for the calls of one case: cwd = a fresh empty temp dir,
+    non-default numpy print options, np.seterr(all='warn'), advanced global `random` / `np.random` states.
+    `changes()` names what the calls left different from the state at entry; everything is restored on exit."""
+
+    def __init__(self, seed):
+        self.seed = seed
+
+    def _snap(self):
+        return dict(cwd=os.getcwd(), files=sorted(os.listdir(".")), geterr=dict(np.geterr()),
+                    printoptions=repr(sorted(np.get_printoptions().items())), random=repr(_random.getstate()),
+                    np_random=repr(np.random.get_state()))
+
+    def __enter__(self):
+        self.saved = (os.getcwd(), np.geterr(), np.get_printoptions(), _random.getstate(), np.random.get_state())
+        self.tmp = tempfile.mkdtemp(prefix="c19env_")
+        os.chdir(self.tmp)
+        np.set_printoptions(precision=2, suppress=True, threshold=5, linewidth=40)
+        np.seterr(all="warn")
+        _random.seed(self.seed)
+        [_random.random() for _ in range(self.seed % 7)]
+        np.random.seed(self.seed % (2 ** 31))
+        np.random.rand(self.seed % 5)
+        self.entry = self._snap()
+        return self
+
+    def changes(self):
+        now = self._snap()
+        return [k for k in self.entry if self.entry[k] != now[k]]
+
+    def __exit__(self, *a):
+        cwd, err, po, rs, nrs = self.saved
+        os.chdir(cwd)
+        np.seterr(**err)
+        np.set_printoptions(**{k: v for k, v in po.items() if k != "override_repr"})
+        _random.setstate(rs)
+        np.random.set_state(nrs)
+        shutil.rmtree(self.tmp, ignore_errors=True)
+
+
+def in_env(dev, seed):
+    return Env(seed) if dev.get("env") else contextlib.nullcontext()
+
+
+# ------------------------------------------------------------------ real code
+def real_obj(sample, edges, dev=NO_DEV):
+    """sample / edges are the represented objects; they are handed over as they are, or as a copy (dev); the object
+    returned is the constructed one, or its copy (dev)"""
+    obj = cc_class(dev.get("sub"))(events_multiplicity=cp(sample, dev.get("scopy")),
+                                   centrality_bins=cp(edges, dev.get("ecopy")))
+    return cp(obj, dev.get("ocopy"))
 
 
 def real_cls(obj, q):
@@ -290,10 +403,21 @@ def is_inf(m):
     return isinstance(m, (float, np.floating)) and m == INF
 
 
-def real_canon(sample, edges, queries):
+ENV_CHANGES = []   # (what changed) for every case run under Env whose calls altered the process environment
+
+
+def real_canon(sample, edges, queries, dev=NO_DEV, seed=0):
     """canonical text of what the real class does, in the driver's answer format"""
+    with in_env(dev, seed) as env:
+        out = _real_canon(sample, edges, queries, dev)
+        if env is not None and env.changes():
+            ENV_CHANGES.append(env.changes())
+    return out
+
+
+def _real_canon(sample, edges, queries, dev):
     try:
-        obj = real_obj(sample, edges)
+        obj = real_obj(sample, edges, dev)
     except ValueError:
         return "err value", None
     except IndexError:
@@ -457,7 +581,8 @@ def represent(rng, sample, edges, queries, allow_tuple=True):
     erep = choose_rep(rng, edges, epal, allow_tuple)
     if erep is None:
         return None
-    return dict(sample=list(sample), edges=edges, queries=[k for k, _ in qv], srep=srep, erep=erep, qtypes=qtypes)
+    return dict(sample=list(sample), edges=edges, queries=[k for k, _ in qv], srep=srep, erep=erep, qtypes=qtypes,
+                dev=gen_dev(rng))
 
 
 def query_ok(srep, v):
@@ -578,7 +703,7 @@ def exhaustive_cases():
 def jcase(case, **more):
     """JSON form of a case (logical values + representation), as written into evidence samples and replay files"""
     d = dict(sample=[jv(x) for x in case["sample"]], edges=[jv(c) for c in case["edges"]],
-             srep=case["srep"], erep=case["erep"])
+             srep=case["srep"], erep=case["erep"], dev=dict(case.get("dev") or NO_DEV))
     if "queries" in case:
         d.update(queries=list(case["queries"]), qtypes=list(case["qtypes"]))
     d.update(more)
@@ -631,19 +756,28 @@ def correspond(ctx):
         ctx.count("erep/" + etag)
         for t in set(case["qtypes"]):
             ctx.count("qtype/" + t)
-        real, obj = real_canon(build_rep(case["srep"], sample), build_rep(case["erep"], edges), typed_queries(case))
+        dev = case["dev"]
+        ctx.count("dev/" + dev_tag(dev))
+        nenv = len(ENV_CHANGES)
+        real, obj = real_canon(build_rep(case["srep"], sample), build_rep(case["erep"], edges), typed_queries(case),
+                               dev, seed=i + 1)
         reals.append(real)
-        if "tuple" in (case["srep"]["c"], case["erep"]["c"]):
+        if len(ENV_CHANGES) > nenv:
+            ctx.brk("correspondence-broken", f"constructing / querying the object changed the process environment: "
+                    f"{ENV_CHANGES[-1]} (cwd, files in cwd, np.geterr(), print options and the global random states are "
+                    f"not the class's to change)", case=jcase(case, code=real))
+        if case["srep"]["c"] in REJECTED or case["erep"]["c"] in REJECTED:
             # documented: TypeError unless list / numpy.ndarray (not part of the model)
             ctx.count("answer/" + real.split(" ")[0] + "-" + (real.split(" ")[1] if real.startswith("err") else "ok"))
             if real != "err type":
-                ctx.brk("correspondence-broken", f"a tuple argument does not raise the documented TypeError: {real}",
+                ctx.brk("correspondence-broken", f"an argument that is neither list nor numpy.ndarray "
+                        f"({rep_tag(case['srep'])} | {rep_tag(case['erep'])}) does not raise the documented TypeError: {real}",
                         case=jcase(case, code=real))
             continue
         feats = features(sample, edges)
         nontriv = feats != ["inadmissible"] and bool(set(feats) & {"tie-at-boundary", "empty-leading", "empty-middle", "uneven"}
                                                      or set(case["etags"]) & {"unsorted", "dup"})
-        canon = (tuple(mkey(x) for x in sample), tuple(ekey(c) for c in edges), stag, etag)
+        canon = (tuple(mkey(x) for x in sample), tuple(ekey(c) for c in edges), stag, etag, dev_tag(dev))
         ctx.case(canon, nontriv, sample=jcase(case, code=real, model=out) if nontriv else None)
         ctx.count(f"sample/{case['sstyle']}")
         ctx.count("n/" + ("<4" if len(sample) < 4 else "4-12" if len(sample) <= 12 else "13-40"))
@@ -709,6 +843,9 @@ def case_of_input(rng, inp, sstyle="replay"):
         case = represent(rng, sample, edges, gen_queries(rng, sample), allow_tuple=False)
     else:
         case = dict(sample=sample, edges=edges, srep=plain_rep(sample), erep=plain_rep(edges))
+    if inp.get("dev"):
+        case["dev"] = dict(NO_DEV, **inp["dev"])
+    case.setdefault("dev", dict(NO_DEV))
     case.setdefault("sstyle", sstyle)
     case.setdefault("etags", [])
     return case
@@ -722,7 +859,7 @@ def admissible(sample, edges):
     return len(sample) >= 4 and all(x >= 0 for x in sample) and all(0 <= c <= 100 for c in cl) and len(cl) >= 2
 
 
-def oracle_check(sample, edges, srep=None, erep=None):
+def oracle_check(sample, edges, srep=None, erep=None, dev=None):
     """None, or (key, what, detail) when the real code violates the property on this admissible input, handed over in
     the given representation (default: plain lists of Python numbers).  The reference works on the exact logical
     values.  Rank-based definition: class i owns the descending ranks [R_i, R_{i+1}), R_j = int(n*c_j/100.0) over the
@@ -733,7 +870,8 @@ def oracle_check(sample, edges, srep=None, erep=None):
         return None
     srep = srep or plain_rep(sample)
     erep = erep or plain_rep(edges)
-    if "tuple" in (srep["c"], erep["c"]):
+    dev = dict(NO_DEV, **(dev or {}))
+    if srep["c"] in REJECTED or erep["c"] in REJECTED:
         return None
     try:
         build_rep(srep, sample), build_rep(erep, edges)
@@ -745,9 +883,20 @@ def oracle_check(sample, edges, srep=None, erep=None):
     N = len(cleaned) - 1
     srt = sorted((exact(x) for x in sample), reverse=True)
     leading = R[0] == 0 and R[1] == 0
-    rtag = f"{rep_tag(srep)} | {rep_tag(erep)}"
+    rtag = f"{rep_tag(srep)} | {rep_tag(erep)}" + ("" if dev == NO_DEV else " | " + dev_tag(dev))
+    with in_env(dev, len(sample) + 17) as env:
+        r = _oracle_check(sample, edges, srep, erep, dev, n, cleaned, R, N, srt, leading, rtag)
+        if r is None and env is not None and env.changes():
+            r = ("environment", f"[{rtag}] constructing / querying the object changed the process environment: {env.changes()}",
+                 dict(changed=env.changes()))
+    return r
+
+
+def _oracle_check(sample, edges, srep, erep, dev, n, cleaned, R, N, srt, leading, rtag):
     try:
-        obj = real_obj(build_rep(srep, sample), build_rep(erep, edges))
+        # everything below is judged on the object as the devices deliver it (a copy / an unpickled object / an
+        # instance of a subclass, built from copied inputs, in the changed environment)
+        obj = real_obj(build_rep(srep, sample), build_rep(erep, edges), dev)
         bins = [exact(c) for c in obj.centrality_bins_]
         if bins != cleaned:
             return ("clean-invariance", f"[{rtag}] centrality_bins_ {[jv(b) for b in bins]} is not the sorted duplicate-free "
@@ -798,7 +947,7 @@ def oracle_check(sample, edges, srep=None, erep=None):
                             dict(cls=i, expected=[jv(min(seg)), jv(max(seg))],
                                  observed=[repr(obj.dNchdetaMin_[i]), repr(obj.dNchdetaMax_[i])]))
         # the same classes from the cleaned edge list (plain Python numbers)
-        obj2 = real_obj(build_rep(srep, sample), build_rep(plain_rep(cleaned), cleaned))
+        obj2 = real_obj(build_rep(srep, sample), build_rep(plain_rep(cleaned), cleaned), dev)
         if stored(obj2) != (smin, smax) or any(obj2.get_centrality_class(mk(t, q)) != cls[q] for q, t in zip(qs, qt)):
             return ("clean-invariance", f"[{rtag}] edges {[jv(c) for c in edges]} and their cleaned form "
                     f"{[jv(c) for c in cleaned]} give different classes",
@@ -824,10 +973,16 @@ def drop_at(spec, i):
 def shrink(case, key):
     """delta debugging on events / edges, then on the representation; the case keeps failing with the same key"""
     cs, ce, rs, re_ = list(case["sample"]), list(case["edges"]), case["srep"], case["erep"]
+    dev = dict(NO_DEV, **(case.get("dev") or {}))
 
-    def bad(s, e, r1, r2):
-        r = oracle_check(s, e, r1, r2)
+    def bad(s, e, r1, r2, d=None):
+        r = oracle_check(s, e, r1, r2, dev if d is None else d)
         return r is not None and r[0] == key
+
+    # the devices the failure does not need are switched off first
+    for k in list(dev):
+        if dev[k] and bad(cs, ce, rs, re_, dict(dev, **{k: NO_DEV[k]})):
+            dev[k] = NO_DEV[k]
 
     changed = True
     while changed:
@@ -851,14 +1006,14 @@ def shrink(case, key):
             cs, changed = dense, True
             continue
         # simpler representations: no flags, plain lists
-        for cand in ([dict(rs, ro=False, nc=False)] if rs["c"] == "nd" and (rs.get("ro") or rs.get("nc")) else []) + \
+        for cand in ([dict(rs, ro=False, nc=False, sub=False)] if rs["c"] == "nd" and (rs.get("ro") or rs.get("nc") or rs.get("sub")) else []) + \
                 ([plain_rep(cs)] if rs != plain_rep(cs) else []):
             if bad(cs, ce, cand, re_):
                 rs, changed = cand, True
                 break
         if changed:
             continue
-        for cand in ([dict(re_, ro=False, nc=False)] if re_["c"] == "nd" and (re_.get("ro") or re_.get("nc")) else []) + \
+        for cand in ([dict(re_, ro=False, nc=False, sub=False)] if re_["c"] == "nd" and (re_.get("ro") or re_.get("nc") or re_.get("sub")) else []) + \
                 ([plain_rep(ce)] if re_ != plain_rep(ce) else []):
             if bad(cs, ce, rs, cand):
                 re_, changed = cand, True
@@ -868,7 +1023,7 @@ def shrink(case, key):
         srt_e = sorted(set(ce))
         if ce != srt_e and re_["c"] != "nd" and bad(cs, srt_e, rs, plain_rep(srt_e)):
             ce, re_, changed = srt_e, plain_rep(srt_e), True
-    return dict(sample=cs, edges=ce, srep=rs, erep=re_)
+    return dict(sample=cs, edges=ce, srep=rs, erep=re_, dev=dev)
 
 
 def search(ctx, budget_s):
@@ -880,11 +1035,11 @@ def search(ctx, budget_s):
     def check(case):
         nonlocal n
         n += 1
-        r = oracle_check(case["sample"], case["edges"], case["srep"], case["erep"])
+        r = oracle_check(case["sample"], case["edges"], case["srep"], case["erep"], case.get("dev"))
         if r and r[0] not in found:
             found.add(r[0])
             m = shrink(case, r[0])
-            r2 = oracle_check(m["sample"], m["edges"], m["srep"], m["erep"]) or r
+            r2 = oracle_check(m["sample"], m["edges"], m["srep"], m["erep"], m["dev"]) or r
             ctx.violation(r2[0], r2[1], dict(input=jcase(m), detail=r2[2],
                                              how_to_replay="./check C19 --replay <this file>"))
         return r
@@ -892,6 +1047,8 @@ def search(ctx, budget_s):
     for c in corpus():
         check(case_of_input(None, c))
         check(case_of_input(rng, c))
+        for mode in COPY_MODES:
+            check(dict(case_of_input(None, c), dev=dict(NO_DEV, ocopy=mode, sub=(mode == "pickle"))))
     # region where model and code first differed (with the representation it was handed over in)
     for b in ctx.broken:
         for c in [b.get("case")] + list(b.get("more_cases") or []):
@@ -941,12 +1098,12 @@ def replay(ctx, path):
         qs = gen_queries(ctx.rng, sample)
         qt = oracle_qtypes(sample, case["srep"], [Fraction(k, 2) for k in qs])
         case.update(queries=[k for k, t in zip(qs, qt) if t], qtypes=[t for t in qt if t])
-    real, _ = real_canon(build_rep(case["srep"], sample), build_rep(case["erep"], edges), typed_queries(case))
+    real, _ = real_canon(build_rep(case["srep"], sample), build_rep(case["erep"], edges), typed_queries(case), case["dev"], 1)
     model, gmodel = common.run_driver("C19", [build_line("fix", sample, edges, case["queries"]),
                                               gen_line(sample, edges, case["queries"])])
     print(f"[C19] sample={[jv(x) for x in sample]} as {rep_tag(case['srep'])}  edges={[jv(c) for c in edges]} as "
-          f"{rep_tag(case['erep'])}\n[C19] code : {real}\n[C19] model: {model}\n[C19] gen  : {gmodel}")
-    r = oracle_check(sample, edges, case["srep"], case["erep"])
+          f"{rep_tag(case['erep'])}  devices: {dev_tag(case['dev'])}\n[C19] code : {real}\n[C19] model: {model}\n[C19] gen  : {gmodel}")
+    r = oracle_check(sample, edges, case["srep"], case["erep"], case["dev"])
     if r:
         print(f"VIOLATION property=C19 replay={path}")
         print(r[1])
